@@ -124,6 +124,7 @@ Theorem push_struct_perm fields fields' b b' : Permutation fields fields' ->
 Proof.
   intros Hp H. destruct b as [v vals len|k v vals|k v offs data|k v offs m e|len v cs]; cbn [push] in *; try discriminate H;
     try (rewrite prim_value_nonscalar in H by exact I; discriminate H).
+  all: try (exfalso; match type of H with context [is_utf8_kind ?kk] => destruct (is_utf8_kind kk); [discriminate H|] end; cbn [binary_of_value bind] in H; discriminate H).
   apply bind_ok in H as (v' & Hv & H). apply bind_ok in H as (st & Hl & H). rewrite Hv. cbn [bind].
   rewrite (struct_loop_perm push fields fields' Hp _ st); [exact H| |exact Hl]. cbn [fst snd]. apply repeat_length.
 Qed.
